@@ -1,5 +1,5 @@
-(* The whole event decoder as a function on the generated EventDecoder record, parametric in the layout
-   implementation f (the abstract step and result are in Spec/Mods.v). *)
+(* Operations on an event decoder and the key events among them (the abstract step and result are in
+   Spec/Mods.v; the abstract decoder as a function on the generated three-field record is Spec/EventRec.v). *)
 From Coq Require Import NArith Arith Bool List Lia.
 From PK Require Import Base.Outcome Base.Finite Gen.Types Impl.
 From PK Require Export Spec.Mods.
@@ -9,26 +9,10 @@ Import ListNotations.
 Section Process.
   Context {L : Type} (f : L -> KeyCode -> Modifiers -> HandleControl -> outcome DecodedKey).
 
-  Definition spec_process (d : EventDecoder L) (ev : KeyEvent) : outcome (EventDecoder L * option DecodedKey) :=
-    let m := EventDecoder_modifiers d in
-    let hc := EventDecoder_handle_ctrl d in
-    let d' := EventDecoder_mk hc (mods_step m ev) (EventDecoder_layout d) in
-    match event_result (fun k => Ret (DecodedKey_RawKey k)) (fun k => f (EventDecoder_layout d) k m hc) m ev with
-    | None => Ret (d', None)
-    | Some r => match r with Ret x => Ret (d', Some x) | Panic => Panic end
-    end.
-
   Inductive ev_op : Type :=
   | OpEvent (ev : KeyEvent)
   | OpMode (hc : HandleControl)
   | OpLayout (l : L).
-
-  Definition spec_op (d : EventDecoder L) (op : ev_op) : outcome (EventDecoder L * option DecodedKey) :=
-    match op with
-    | OpEvent ev => spec_process d ev
-    | OpMode hc => Ret (EventDecoder_mk hc (EventDecoder_modifiers d) (EventDecoder_layout d), None)
-    | OpLayout l => Ret (EventDecoder_mk (EventDecoder_handle_ctrl d) (EventDecoder_modifiers d) l, None)
-    end.
 
   Definition events_of (ops : list ev_op) : list KeyEvent :=
     flat_map (fun op => match op with OpEvent ev => [ev] | _ => [] end) ops.
